@@ -62,7 +62,21 @@ impl C13 {
                 layout.push(format!("[{:#x},+{:#x})", at, len));
             }
         }
-        if !call(|| ax.handle_syscalls(vec![Syscall::Brk])).is_ok() {
+        let install = rng.below(6);
+        if !call(|| match install {
+            0 => {
+                ax.handle_syscalls(vec![Syscall::Exit])?;
+                ax.handle_syscalls(vec![Syscall::Exit, Syscall::Brk])
+            }
+            1 => ax.handle_syscalls(vec![Syscall::Pipe, Syscall::Brk, Syscall::Exit]),
+            2 => {
+                ax.handle_syscalls(vec![Syscall::Pipe, Syscall::ArchPrctl])?;
+                ax.handle_syscalls(vec![Syscall::ArchPrctl, Syscall::Brk, Syscall::Pipe])
+            }
+            _ => ax.handle_syscalls(vec![Syscall::Brk]),
+        })
+        .is_ok()
+        {
             col.violation_case("handle_syscalls-failed", k, "handle_syscalls(Brk) failed".into(), json!(null));
             return;
         }
